@@ -290,6 +290,9 @@ bool utf8_ok(const std::string& s) {
     return true;
 }
 
+thread_local bool g_lenient_protocol_errors = false;
+thread_local bool g_lenient_utf8 = false;
+
 namespace {
 struct Rd {
     const std::string& s; size_t i, end; std::string err;
@@ -313,9 +316,12 @@ struct Rd {
         fail("varint longer than 4 bytes"); return 0;
     }
     std::string bin() { uint16_t n = u16(); if (!ok()) return {}; if (left() < n) { fail("truncated string/binary"); return {}; } std::string r = s.substr(i, n); i += n; return r; }
-    std::string str() { std::string r = bin(); if (ok() && !utf8_ok(r)) fail("ill-formed UTF-8 string"); return r; }
+    std::string str() { std::string r = bin(); if (ok() && !g_lenient_utf8 && !utf8_ok(r)) fail("ill-formed UTF-8 string"); return r; }
     void fail(const std::string& e) { if (err.empty()) err = e; }
 };
+
+// MQTT 5 distinguishes a Malformed Packet (cannot be parsed) from a Protocol Error (parsed, but contains data that is
+// not allowed: a property twice, a property of another packet type). decode_lenient() accepts the latter.
 
 std::string read_props(Rd& r, PSlot slot, Props& out) {
     uint32_t len = r.varint();
@@ -327,9 +333,9 @@ std::string read_props(Rd& r, PSlot slot, Props& out) {
         Prop x; x.id = p.u8();
         PKind k = prop_kind(x.id);
         if (k == PKind::unknown) return "unknown property id " + std::to_string(x.id);
-        if (!prop_allowed(slot, x.id)) return std::string("property ") + prop_name(x.id) + " not allowed in this packet";
+        if (!g_lenient_protocol_errors && !prop_allowed(slot, x.id)) return std::string("property ") + prop_name(x.id) + " not allowed in this packet";
         bool repeatable = x.id == P_USER || (x.id == P_SUB_ID && slot == PSlot::publish);
-        if (!repeatable && !seen.insert(x.id).second) return std::string("duplicate property ") + prop_name(x.id);
+        if (!repeatable && !seen.insert(x.id).second && !g_lenient_protocol_errors) return std::string("duplicate property ") + prop_name(x.id);
         switch (k) {
         case PKind::byte: x.num = p.u8(); break;
         case PKind::u16: x.num = p.u16(); break;
@@ -342,6 +348,7 @@ std::string read_props(Rd& r, PSlot slot, Props& out) {
         }
         if (!p.ok()) return "property " + std::string(prop_name(x.id)) + ": " + p.err;
         // value constraints
+        if (g_lenient_protocol_errors) { out.push_back(std::move(x)); continue; }   // value constraints are Protocol Errors, the packet parses
         if (x.id == P_SUB_ID && (x.num == 0)) return "subscription identifier 0";
         if (x.id == P_TOPIC_ALIAS && x.num == 0) return "topic alias 0";
         if ((x.id == P_PAYLOAD_FORMAT || x.id == P_REQ_PROBLEM || x.id == P_REQ_RESPONSE || x.id == P_RETAIN_AVAIL ||
@@ -355,6 +362,14 @@ std::string read_props(Rd& r, PSlot slot, Props& out) {
     return {};
 }
 } // namespace
+
+std::string decode_strict(const std::string& raw, Packet& out, bool from_server);
+std::string decode_lenient(const std::string& raw, Packet& out, bool from_server, bool utf8_too) {
+    g_lenient_protocol_errors = true; g_lenient_utf8 = utf8_too;
+    std::string e = decode_strict(raw, out, from_server);
+    g_lenient_protocol_errors = false; g_lenient_utf8 = false;
+    return e;
+}
 
 std::string decode_strict(const std::string& raw, Packet& out, bool from_server) {
     out = Packet{};
@@ -403,15 +418,15 @@ std::string decode_strict(const std::string& raw, Packet& out, bool from_server)
     case PUBLISH: {
         out.dup = out.flags & 8; out.qos = (out.flags >> 1) & 3; out.retain = out.flags & 1;
         if (out.qos == 3) return "PUBLISH QoS 3";
-        if (out.qos == 0 && out.dup) return "PUBLISH QoS 0 with DUP";
+        if (out.qos == 0 && out.dup && !g_lenient_protocol_errors) return "PUBLISH QoS 0 with DUP";
         out.topic = r.str();
         if (!r.ok()) return r.err;
-        if (out.topic.find_first_of("#+") != std::string::npos) return "PUBLISH topic name contains wildcard";
-        if (out.qos) { out.pid = r.u16(); if (r.ok() && out.pid == 0) return "packet identifier 0"; }
+        if (!g_lenient_protocol_errors && out.topic.find_first_of("#+") != std::string::npos) return "PUBLISH topic name contains wildcard";
+        if (out.qos) { out.pid = r.u16(); if (r.ok() && out.pid == 0 && !g_lenient_protocol_errors) return "packet identifier 0"; }
         if (!r.ok()) return r.err;
         if (!(e = read_props(r, PSlot::publish, out.props)).empty()) return "PUBLISH properties: " + e;
         if (!from_server && find_prop(out.props, P_SUB_ID)) return "client PUBLISH carries Subscription Identifier";
-        if (out.topic.empty() && !find_prop(out.props, P_TOPIC_ALIAS)) return "empty topic without alias";
+        if (!g_lenient_protocol_errors && out.topic.empty() && !find_prop(out.props, P_TOPIC_ALIAS)) return "empty topic without alias";
         out.payload = raw.substr(r.i, r.end - r.i); r.i = r.end;
         break;
     }
